@@ -55,3 +55,6 @@ impl vstd::std_specs::convert::FromSpecImpl<Extent> for Range<u64> {
     open spec fn obeys_from_spec() -> bool { true }
     open spec fn from_spec(e: Extent) -> Range<u64> { Range { start: e.start, end: e.end } }
 }
+pub open spec fn ends_le(s: Seq<Extent>, b: int) -> bool { forall|i: int| 0 <= i < s.len() ==> (#[trigger] s[i]).end <= b }
+/// ordered and pairwise disjoint
+pub open spec fn ext_sorted(s: Seq<Extent>) -> bool { forall|i: int, j: int| 0 <= i < j < s.len() ==> (#[trigger] s[i]).end <= (#[trigger] s[j]).start }
